@@ -38,6 +38,7 @@ ASSUMPTIONS = [
     "orientations from the cube group (exact integer matrices) for the state graph; generic rotations only in the round-trip family and in depth-2 histories",
     "positions on the integer lattice; states with |p| > 4 are checked but not expanded",
     "float tolerance 1e-6 on axes / matrices (float32 positions: 1e-5)",
+    "rotate_by_euler_angle: full product order {xyz, zyx} x degrees x start {identity, generic} x copy per (rotation, sequence) against rotate_by",
     "from_axes inputs within 2e-6 of anti-parallel are compared with tolerance 1e-5",
 ]
 
